@@ -319,6 +319,12 @@ fn parse_zip_stream(contents: &[u8]) -> Result<(usize, DecompressResult)> {
     if zip_local_file_header.compression_method == 8 {
         let deflate_start_position = binary_reader.stream_position()? as usize;
 
+        // seeking past the end of a cursor is allowed, so the extra field length of a
+        // truncated or fake header can point beyond the data
+        if deflate_start_position > contents.len() {
+            return err_exit_code(ExitCode::InvalidDeflate, "Zip header runs past end of data");
+        }
+
         if let Ok(res) = decompress_deflate_stream(&contents[deflate_start_position..], true, 1) {
             return Ok((deflate_start_position, res));
         }
